@@ -7,5 +7,6 @@ CONSTANTS
   Fuse = TRUE
   ExtChoice = "one"
   ReqChoice = "sched3"
+  TrChoice = "direct"
 CONSTRAINT Export
 INVARIANTS TypeOK I1 I2
